@@ -189,7 +189,29 @@ func init() {
 		"math/bits.Len64": func(e *Exec, fr *frame, a []Value) Value { return bitsLen(e, a[0].(*Term), 64) },
 		"math/bits.Len32": func(e *Exec, fr *frame, a []Value) Value { return bitsLen(e, a[0].(*Term), 32) },
 		"math/bits.Len":   func(e *Exec, fr *frame, a []Value) Value { return bitsLen(e, a[0].(*Term), 64) },
-		"strings.Split":   stringsSplit,
+		"strconv.FormatInt": func(e *Exec, fr *frame, a []Value) Value {
+			t, b := a[0].(*Term), a[1].(*Term)
+			if t.IsConst() && b.IsConst() {
+				return strconv.FormatInt(int64(t.val), int(b.val))
+			}
+			bs := make([]*Term, 8)
+			for i := 0; i < 8; i++ {
+				bs[i] = e.st.Extract(t, 63-8*i, 56-8*i)
+			}
+			return &SymStr{bs}
+		},
+		"strconv.FormatUint": func(e *Exec, fr *frame, a []Value) Value {
+			t, b := a[0].(*Term), a[1].(*Term)
+			if t.IsConst() && b.IsConst() {
+				return strconv.FormatUint(t.val, int(b.val))
+			}
+			bs := make([]*Term, 8)
+			for i := 0; i < 8; i++ {
+				bs[i] = e.st.Extract(t, 63-8*i, 56-8*i)
+			}
+			return &SymStr{bs}
+		},
+		"strings.Split": stringsSplit,
 		// reflect.TypeOf(nil) is the nil Type (a method call on it panics, as natively); for any other value an
 		// opaque non-nil Type whose methods return an opaque string (types are only ever printed by the repository)
 		"reflect.TypeOf": func(e *Exec, fr *frame, a []Value) Value {
